@@ -148,6 +148,16 @@ CATALOGUE = [
     ("C20", "c20-no-repoint-cse", "dsl_compiler/cli.py", "        repoint_signal_refs(lowerer.signal_refs, cse.replacements)\n", "", 1, "fire", "C20-R6"),
     ("C06", "c06-inline-output", EP, "        if (getattr(usage, \"debug_metadata\", None) or {}).get(\"is_output\"):\n            return None\n", "", 1, "fire", "is_output"),
     ("C13", "c13-raw-bundle-keys", EP, "                signals={\n                    self.signal_analyzer.get_signal_name(name): value\n                    for name, value in op.signals.items()\n                },\n", "                signals=op.signals,\n", 1, "fire", "C13-R4"),
+    ("C13", "c13-builtin-not-registered", "dsl_compiler/src/lowering/lowerer.py", "            if self.ir_builder.signal_registry.resolve(signal_type) is None:\n                self.ir_builder.signal_registry.register(\n                    signal_type, signal_type, self._infer_signal_category(signal_type)\n                )\n            return\n", "            return\n", 1, "fire", "C13-R2"),
+    ("C06", "c06-virtual-category", EE, "                        signal_category = _infer_signal_type(signal_name)\n", "                        signal_category = \"virtual\"\n", 1, "fire", "C06-R13"),
+    ("C01", "c01-const-first", EE, "            condition_kwargs[\"first_signal\"] = right_operand\n            condition_kwargs[\"first_signal_networks\"] = right_operand_wires\n", "            condition_kwargs[\"first_signal\"] = \"signal-0\"\n            condition_kwargs[\"second_signal\"] = right_operand\n", 1, "fire", "C01-R12"),
+    ("C01", "c01-mirror-table", EE, "_MIRRORED_COMPARATOR = {\"<\": \">\", \">\": \"<\", \"<=\": \">=\",", "_MIRRORED_COMPARATOR = {\"<\": \">\", \">\": \"<\", \"<=\": \">\",", 1, "fire", "mirror table"),
+    ("C05", "c05-latch-value-not-exported", SA, "                record_export(op.value, f\"memory:{op.memory_id}.value\")\n", "", 1, "fire", "C05-R9"),
+    ("C15", "c15-param-retype", EL, "        for ref in self.parent.param_values.values():\n            if isinstance(ref, SignalRef) and ref.source_id == source_ref.source_id:\n                return None\n", "", 1, "fire", "C15-R10"),
+    ("C20", "c20-bundle-alias", SA, "            if isinstance(ref, (SignalRef, BundleRef)):\n                # Check if this source has suppress_materialization", "            if isinstance(ref, SignalRef):\n                # Check if this source has suppress_materialization", 1, "fire", "C20-R8"),
+    ("C20", "c20-bundle-repoint", OPT, "        if isinstance(ref, (SignalRef, BundleRef)):\n            seen: set[str] = set()", "        if isinstance(ref, SignalRef):\n            seen: set[str] = set()", 1, "fire", "C20-R8"),
+    ("C02", "c02-copycount-any-literal", EP, "inlined_literal = isinstance(op.output_value, SignalRef) and isinstance(output_value, int)", "inlined_literal = isinstance(output_value, int)", 2, "fire", "C02-R7"),
+    ("C04", "c04-reverse-colour-unguarded", CP, "            if (sink_id, source_id, signal_name) not in self._edge_wire_colors:\n                self._edge_wire_colors[(sink_id, source_id, signal_name)] = wire_color\n", "            self._edge_wire_colors[(sink_id, source_id, signal_name)] = wire_color\n", 1, "fire", "C04-R7"),
     ("C19", "c19-dict-order-from-set", CP, "merge_list = sorted(source_merge_edges.keys())", "merge_list = list(source_merge_edges)", 1, "fire", "C19-R1"),
 ]
 
